@@ -209,6 +209,8 @@ def rule_no_growth(ctx: Ctx, repo: Repo) -> None:
         sc.fi = fi
         sc.ri.fi = fi
         sc.ri.cur_fi = fi
+        sc.ri.self_class = ci
+        sc.ri.inline |= {mm.fq for c in repo.mro(ci) for mm in c.methods.values() if mm.qualname.split(".")[-1] not in ("rewrite", "generic_rewrite", "make_anonymous_typed_dict")}
         made: List[Dict[str, V]] = []
         base = sc.call_hook
         def hook(call, fname, fval, args, kwargs, st, _b=base, _m=made):
